@@ -165,6 +165,7 @@ class Check:
         examples: dict[str, int],
         shrink: Any = True,
         budget_s: dict[str, float] | None = None,
+        case_timeout: float | None = None,
     ) -> None:
         self.name = name
         self.strategy = strategy
@@ -172,6 +173,7 @@ class Check:
         self.examples = examples
         self.shrink = shrink
         self.budget_s = budget_s or {"quick": 150.0, "thorough": 1500.0}
+        self.case_timeout = case_timeout  # watchdog per case (seconds); None = default
 
 
 class Enum:
@@ -335,7 +337,13 @@ def run_shard(prop: str, tier: str, seed: int, shard: int, nshards: int, out: st
                 continue
             ctx.deadline = time.monotonic() + c.budget_s[tier] * max(1.0, scale)
             first: list[Violation] = []
-            body = _make_body(c, ctx, first, prop, seed, shard)
+            # Hypothesis always starts a run with the simplest case of the strategy; when a shard
+            # only gets a handful of examples that would be most of its budget (and the same
+            # case in all 16 shards), so it is skipped there
+            skip_first = n < 40
+            if skip_first:
+                n += 1
+            body = _make_body(c, ctx, first, prop, seed, shard, skip_first)
 
             phases = [Phase.explicit, Phase.generate, Phase.target]
             if c.shrink is True:
@@ -406,12 +414,17 @@ def _alarm(signum: Any, frame: Any) -> None:
     raise CaseTimeout()
 
 
-def _make_body(c: Check, ctx: Ctx, first: list, prop: str, seed: int, shard: int):
+def _make_body(c: Check, ctx: Ctx, first: list, prop: str, seed: int, shard: int, skip_first: bool = False):
     import signal
 
-    limit = float(os.environ.get("VERIF_CASE_TIMEOUT", "90"))
+    calls = [0]
+
+    limit = float(os.environ.get("VERIF_CASE_TIMEOUT", "0") or 0) or c.case_timeout or 90.0
 
     def body(case: Any) -> None:
+        calls[0] += 1
+        if skip_first and calls[0] == 1 and shard != 0:
+            return
         if ctx.out_of_time() and not ctx.frozen:
             return
         # watchdog: a case that blocks (e.g. an unbounded retry loop inside optuna) is recorded
